@@ -5,6 +5,10 @@ import JubakoModel.Lemmas.Slice
 
 namespace Jubako
 
+-- `omega` certificates with the coefficient 256 over `Nat` need a deeper elaborator recursion than
+-- the default (e.g. `k < n → p < k * 256 + 256 → p < n * 256` fails at the default depth).
+set_option maxRecDepth 8000
+
 /-! ### 1. constants -/
 
 theorem packInfoBlockSize_eq : packInfoBlockSize = 256 := by decide
@@ -98,5 +102,209 @@ theorem maskedPos_eq_true_iff (po n p : Nat) :
   simp only [maskedPos, packInfoBlockSize_eq, packInfoToCheck_eq, Bool.and_eq_true,
     decide_eq_true_eq]
   omega
+
+/-! ### 8. one `read` call -/
+
+theorem checkStreamRead_spec (po n pos : Nat) (src : Bytes) (req : Nat) :
+    (checkStreamRead po n pos src req).1 =
+        maskFrom po n pos (src.take (checkStreamRead po n pos src req).1.length) ∧
+    (checkStreamRead po n pos src req).2 = src.drop (checkStreamRead po n pos src req).1.length ∧
+    (checkStreamRead po n pos src req).1.length ≤ req ∧
+    (0 < req → src ≠ [] → 0 < (checkStreamRead po n pos src req).1.length) := by
+  have hne : src ≠ [] → 0 < src.length := fun h => List.length_pos_iff.mpr h
+  have htake : ∀ k, List.take (min k src.length) src = List.take k src := by
+    intro k
+    rcases Nat.le_total k src.length with h | h
+    · rw [Nat.min_eq_left h]
+    · rw [Nat.min_eq_right h, List.take_length, List.take_of_length_le h]
+  have hdrop : ∀ k, List.drop (min k src.length) src = List.drop k src := by
+    intro k
+    rcases Nat.le_total k src.length with h | h
+    · rw [Nat.min_eq_left h]
+    · rw [Nat.min_eq_right h, List.drop_length, List.drop_of_length_le h]
+  unfold checkStreamRead
+  simp only [packInfoBlockSize_eq, packInfoToCheck_eq]
+  split
+  · -- before the pack infos
+    rename_i h1
+    simp only [List.length_take, htake, hdrop]
+    refine ⟨?_, trivial, by omega, by intro a b; have := hne b; omega⟩
+    rw [maskFrom_unmasked]
+    intro i hi
+    rw [maskedPos_eq_false_iff]
+    simp only [List.length_take] at hi
+    omega
+  · split
+    · -- after the pack infos
+      rename_i h1 h2
+      simp only [List.length_take, htake, hdrop]
+      refine ⟨?_, trivial, by omega, by intro a b; have := hne b; omega⟩
+      rw [maskFrom_unmasked]
+      intro i hi
+      rw [maskedPos_eq_false_iff]
+      omega
+    · split
+      · -- checked part of a pack info
+        rename_i h1 h2 h3
+        simp only [List.length_take, htake, hdrop]
+        refine ⟨?_, trivial, by omega, by intro a b; have := hne b; omega⟩
+        rw [maskFrom_unmasked]
+        intro i hi
+        rw [maskedPos_eq_false_iff]
+        simp only [List.length_take] at hi
+        omega
+      · -- exempt part of a pack info
+        rename_i h1 h2 h3
+        simp only [zeros, List.length_replicate, List.length_take, htake, hdrop]
+        refine ⟨?_, trivial, by omega, by intro a b; have := hne b; omega⟩
+        rw [maskFrom_masked]
+        · simp only [zeros, List.length_take]
+        · intro i hi
+          rw [maskedPos_eq_true_iff]
+          simp only [List.length_take] at hi
+          omega
+
+/-- a delivered chunk is never longer than the remaining source -/
+theorem checkStreamRead_length_le (po n pos : Nat) (src : Bytes) (req : Nat) :
+    (checkStreamRead po n pos src req).1.length ≤ src.length := by
+  have h := (checkStreamRead_spec po n pos src req).1
+  have h2 := congrArg List.length h
+  rw [maskFrom_length, List.length_take] at h2
+  omega
+
+/-! ### 9–10. arbitrary chunkings -/
+
+theorem checkStreamDrain_nil (po n pos : Nat) (src : Bytes) :
+    checkStreamDrain po n pos src [] = [] := by
+  simp [checkStreamDrain]
+
+theorem checkStreamDrain_cons (po n pos : Nat) (src : Bytes) (req : Nat) (rest : List Nat) :
+    checkStreamDrain po n pos src (req :: rest) =
+      (checkStreamRead po n pos src req).1 ++
+        checkStreamDrain po n (pos + (checkStreamRead po n pos src req).1.length)
+          (checkStreamRead po n pos src req).2 rest := by
+  simp [checkStreamDrain]
+
+theorem checkStreamDrain_spec (po n pos : Nat) (src : Bytes) (reqs : List Nat) :
+    checkStreamDrain po n pos src reqs =
+      maskFrom po n pos (src.take (checkStreamDrain po n pos src reqs).length) := by
+  induction reqs generalizing pos src with
+  | nil => simp [checkStreamDrain_nil, maskFrom_nil]
+  | cons req rest ih =>
+    rw [checkStreamDrain_cons]
+    obtain ⟨h1, h2, -, -⟩ := checkStreamRead_spec po n pos src req
+    have hle := checkStreamRead_length_le po n pos src req
+    generalize (checkStreamRead po n pos src req).1 = got at h1 h2 hle
+    generalize (checkStreamRead po n pos src req).2 = src' at h2
+    subst h2
+    have ih' := ih (pos + got.length) (List.drop got.length src)
+    generalize checkStreamDrain po n (pos + got.length) (List.drop got.length src) rest = d at ih'
+    rw [List.length_append, List.take_add, maskFrom_append, ← h1, List.length_take,
+      Nat.min_eq_left hle, ← ih']
+
+theorem checkStreamDrain_length_le (po n pos : Nat) (src : Bytes) (reqs : List Nat) :
+    (checkStreamDrain po n pos src reqs).length ≤ src.length := by
+  have h2 := congrArg List.length (checkStreamDrain_spec po n pos src reqs)
+  rw [maskFrom_length, List.length_take] at h2
+  omega
+
+theorem checkStreamDrain_all (po n : Nat) (src : Bytes) (reqs : List Nat)
+    (h : (checkStreamDrain po n 0 src reqs).length = src.length) :
+    checkStreamDrain po n 0 src reqs = manifestMask po n src := by
+  rw [checkStreamDrain_spec, h, List.take_length, manifestMask]
+
+/-! ### 11. `splice` -/
+
+theorem splice_length (f : Bytes) (off : Nat) (new : Bytes) (h : off + new.length ≤ f.length) :
+    (splice f off new).length = f.length := by
+  simp only [splice, List.length_append, List.length_take, List.length_drop]
+  omega
+
+theorem splice_getElem? (f new : Bytes) (off i : Nat) (h : off + new.length ≤ f.length) :
+    (splice f off new)[i]? =
+      if i < off then f[i]? else if i < off + new.length then new[i - off]? else f[i]? := by
+  have hoff : min off f.length = off := Nat.min_eq_left (by omega)
+  simp only [splice, List.getElem?_append, List.length_append, List.length_take, hoff,
+    List.getElem?_take, List.getElem?_drop]
+  by_cases h1 : i < off
+  · have h2 : i < off + new.length := by omega
+    simp [h1, h2]
+  · by_cases h2 : i < off + new.length
+    · simp [h1, h2]
+    · simp only [h1, h2, if_false]
+      congr 1
+      omega
+
+theorem splice_getElem?_outside (f new : Bytes) (off i : Nat) (h : off + new.length ≤ f.length)
+    (hi : i < off ∨ off + new.length ≤ i) : (splice f off new)[i]? = f[i]? := by
+  rw [splice_getElem? f new off i h]
+  by_cases h1 : i < off
+  · simp [h1]
+  · have h2 : ¬ i < off + new.length := by omega
+    simp [h1, h2]
+
+theorem splice_getElem?_inside (f new : Bytes) (off i : Nat) (h : off + new.length ≤ f.length)
+    (hi : i < new.length) : (splice f off new)[off + i]? = new[i]? := by
+  rw [splice_getElem? f new off (off + i) h]
+  have h1 : ¬ off + i < off := by omega
+  have h2 : off + i < off + new.length := by omega
+  simp [h1, h2]
+
+theorem slice_getElem? (bs : Bytes) (a len i : Nat) :
+    (slice bs a len)[i]? = if i < len then bs[a + i]? else none := by
+  simp [slice, List.getElem?_take, List.getElem?_drop]
+
+theorem slice_splice_same (f new : Bytes) (off : Nat) (h : off + new.length ≤ f.length) :
+    slice (splice f off new) off new.length = new := by
+  apply List.ext_getElem?
+  intro i
+  rw [slice_getElem?]
+  by_cases hi : i < new.length
+  · simp only [hi, if_true]
+    exact splice_getElem?_inside f new off i h hi
+  · simp only [hi, if_false]
+    exact (List.getElem?_eq_none (by omega)).symm
+
+theorem slice_splice_disjoint (f new : Bytes) (off a len : Nat) (h : off + new.length ≤ f.length)
+    (hd : a + len ≤ off ∨ off + new.length ≤ a) :
+    slice (splice f off new) a len = slice f a len := by
+  apply List.ext_getElem?
+  intro i
+  rw [slice_getElem?, slice_getElem?]
+  by_cases hi : i < len
+  · simp only [hi, if_true]
+    exact splice_getElem?_outside f new off (a + i) h (by omega)
+  · simp only [hi, if_false]
+
+/-! ### 12. the mask does not see a rewrite of the location / CRC part of a pack info -/
+
+theorem manifestMask_splice (po n k : Nat) (f new : Bytes) (hk : k < n) (hlen : new.length = 256)
+    (hin : po + k * 256 + 256 ≤ f.length)
+    (hsame : new.take 38 = (slice f (po + k * 256) 256).take 38) :
+    manifestMask po n (splice f (po + k * 256) new) = manifestMask po n f := by
+  have h : po + k * 256 + new.length ≤ f.length := by omega
+  apply List.ext_getElem?
+  intro i
+  simp only [manifestMask, maskFrom_getElem?, Nat.zero_add]
+  by_cases hout : i < po + k * 256 ∨ po + k * 256 + new.length ≤ i
+  · rw [splice_getElem?_outside f new _ i h hout]
+  · obtain ⟨j, rfl⟩ : ∃ j, i = po + k * 256 + j := ⟨i - (po + k * 256), by omega⟩
+    have hj : j < new.length := by omega
+    rw [splice_getElem?_inside f new _ j h hj]
+    by_cases hj38 : j < 38
+    · -- checked part: the bytes are unchanged
+      have e := congrArg (fun l => l[j]?) hsame
+      simp only [List.getElem?_take, hj38, if_true, slice_getElem?] at e
+      have hj256 : j < 256 := by omega
+      simp only [hj256, if_true] at e
+      rw [e]
+    · -- exempt part: both sides read as zero
+      have hm : maskedPos po n (po + k * 256 + j) = true := by
+        rw [maskedPos_eq_true_iff]
+        omega
+      have h1 : j < new.length := hj
+      have h2 : po + k * 256 + j < f.length := by omega
+      rw [List.getElem?_eq_getElem h1, List.getElem?_eq_getElem h2]
+      simp [hm]
 
 end Jubako
